@@ -3,16 +3,17 @@ CONSTANTS
   SimOrder <- Order2
   Foreign = "f"
   MaxTarget = 3
-  SaveFreqs = {1, 2, 3}
-  Compressed = TRUE
+  SaveFreqs = {1, 2}
+  Compressed = FALSE
   AtomicSave = TRUE
   MaxRuns = 3
-  MaxKills = 100
-  MaxInterrupts = 100
-  RepairPartial = TRUE
-  Planned = TRUE
+  MaxKills = 2
+  MaxInterrupts = 1
+  RepairPartial = FALSE
+  Planned = FALSE
 INIT Init
 NEXT Next
+VIEW view
 INVARIANT TypeOK
 INVARIANT Completes
 INVARIANT ExactCounts
@@ -20,4 +21,4 @@ INVARIANT NoDup
 INVARIANT NoForeign
 INVARIANT LoadAdoptsLastGood
 INVARIANT DiskConsistent
-CONSTRAINT Emit
+PROPERTY PrefixKept
